@@ -992,6 +992,39 @@ def main(chk):
                           {'input.exp': text}, dict(stderr=tr.r.err[-1500:]))
     chk.count('long-identifier cases', len(lcases))
 
+    # ---------------- (i) argument counts quoted by the call diagnostics: the numbers are the ones of the call site and of the
+    # declaration, for calls with a parameter list and for a function named without one
+    acases = []
+    for nformal in (1, 2, 3):
+        formals = '; '.join('p%d : REAL' % i for i in range(nformal))
+        for given in range(0, 5):
+            if given == nformal:
+                continue
+            for bare in ((True, False) if given == 0 else (False,)):
+                call = 'weight' if bare else 'weight(%s)' % ', '.join(['1.0'] * given)
+                text = ('SCHEMA s;\nFUNCTION weight(%s) : REAL;\n  RETURN (1.0);\nEND_FUNCTION;\nENTITY e;\n  a : REAL;\nDERIVE\n  w : REAL := %s;\nEND_ENTITY;\nEND_SCHEMA;\n'
+                        % (formals, call))
+                acases.append((nformal, given, bare, text))
+
+    def awork(c):
+        return c, R.run_tool(TOOL, c[3], args=['-w', 'all'], how='abs')
+    pat = re.compile(r'uses (-?\d+) arguments?, but expected (-?\d+)')
+    for (nformal, given, bare, text), tr in run.pmap(awork, acases):
+        chk.ev()
+        chk.seen('argument count', nformal, given, bare)
+        how = 'function named without a parameter list' if bare else 'call with a parameter list'
+        hits = [(d, pat.search(d.msg)) for d in tr.diags if pat.search(d.msg)]
+        if not hits:
+            chk.count('argument-count cases without a count diagnostic (nothing to judge)')
+            continue
+        for d, m in hits:
+            if (int(m.group(1)), int(m.group(2))) != (given, nformal):
+                chk.violation('argument count: %s x %s|quoted counts are not those of the call and the declaration' % (how, TOOL),
+                              '%d given, %d declared: %s' % (given, nformal, d.raw), {'input.exp': text}, dict(stderr=tr.r.err[-1200:]))
+            elif d.line != 8:
+                chk.violation('argument count: %s x %s|line number wrong' % (how, TOOL), 'line %s, expected 8: %s' % (d.line, d.raw), {'input.exp': text})
+    chk.count('argument-count cases', len(acases))
+
     return chk.finish(
         rule='single-fault mutants (vf/c04_faults.py) of %d generated valid files (%d multi-schema), one per argument-carrying fault class '
              '(%d classes) and file, run by check-express with the path given in 3 forms; switch matrix over the %d advertised warning names '
